@@ -161,6 +161,44 @@ def streams(seed, nepisodes, prefix, faults=False, big=True):
         yield {'id': '%s%d' % (prefix, i), 'comp': 'dec', 'solo': True, 'ops': ops}
 
 
+def encoder_streams(seed, nepisodes, prefix, faults=False):
+    """Frames produced by real encoders (2..4 endpoints, also the same device with another stream, counters near
+    the wrap), interleaved into one decoder; optionally with drop / duplicate / hold-release faults."""
+    import enc_gen
+    rng = random.Random(seed)
+    for i in range(nepisodes):
+        n = rng.choice([2, 3, 4])
+        pairs = [(7, 1), (7, 2), (8, 1), (65535, 255)][:n]
+        ops = [{'op': 'new'}]
+        for k, (d, s) in enumerate(pairs):
+            ops.append({'op': 'enc.new', 'enc': k, 'dev': d, 'stream': s, 'seq': rng.choice([0, 0, 65530, 65534])})
+        pending = []
+        for k in range(n):
+            for _ in range(rng.choice([1, 2, 3])):
+                ctx = {'min': rng.choice([0, 0, 64]), 'max': rng.choice([40, 64, 100, 300, 1500])}
+                b = enc_gen.batch(rng, ctx, rng.choice([1, 2, 4]), False, 3000)
+                for p in b:
+                    p['fl'] &= ~0x4C
+                ops.append({'op': 'enc.encode', 'enc': k, 'batch': b, 'ctx': ctx})
+                nfr = sum(max(1, -(-len(p['pl']) // max(1, ctx['max'] - 24))) for p in b) + len(b)
+                pending += [k] * nfr
+        rng.shuffle(pending)
+        for k in pending:
+            r = rng.random()
+            meta = {'ep': k, 'sent': []}
+            if faults and r < 0.06:
+                ops.append({'op': 'drop', 'enc': k, 'fault': 'drop'})
+            elif faults and r < 0.10:
+                ops.append({'op': 'hold', 'enc': k, 'fault': 'hold'})
+            else:
+                ops.append({'op': 'feed', 'enc': k, 'meta': meta})
+                if faults and r > 0.94:
+                    ops.append({'op': 'refeed', 'enc': k, 'meta': {'ep': k, 'sent': [], 'fault': 'dup'}})
+                if faults and rng.random() < 0.3:
+                    ops.append({'op': 'release', 'enc': k, 'meta': {'ep': k, 'sent': [], 'fault': 'rel'}})
+        yield {'id': '%s%d' % (prefix, i), 'comp': 'dec', 'solo': True, 'ops': ops}
+
+
 def mutate(rng, frame):
     f = list(frame)
     if not f:
